@@ -290,8 +290,8 @@ Lemma tmp_clauses_at strict ord : forall pre n r post d,
      (tmp_clauses strict ord n (pre ++ r :: post)).
 Proof.
   induction pre as [|r0 pre IH]; intros n r post d Ed Es.
-  - cbn [app tmp_clauses fresh_ids length]. rewrite Ed, Es. left. f_equal. simpl. lia.
-  - cbn [app tmp_clauses fresh_ids]. destruct (r_do r0); [|eapply IH; eauto].
+  - rewrite app_nil_l. cbn [tmp_clauses fresh_ids length]. rewrite Ed, Es. left. f_equal. simpl. lia.
+  - rewrite <- app_comm_cons. cbn [tmp_clauses fresh_ids]. destruct (r_do r0); [|eapply IH; eauto].
     destruct (single_atom_premise strict (r_wild r0) (cbody (r_clause r0))); [eapply IH; eauto|].
     right. cbn [length]. rewrite Nat2Z.inj_succ.
     replace (n + Z.succ (Z.of_nat (length (fresh_ids true strict (n + 1) pre))) + 1)
@@ -305,9 +305,9 @@ Lemma rewrite_go_do_at strict ord : forall pre n r post d,
      (rewrite_go true strict ord n (pre ++ r :: post)).
 Proof.
   induction pre as [|r0 pre IH]; intros n r post d Ed Es.
-  - cbn [app rewrite_go fresh_ids length]. rewrite Ed, Es. right. left.
+  - rewrite app_nil_l. cbn [rewrite_go fresh_ids length]. rewrite Ed, Es. right. left.
     unfold do_clause, tmp_clause. cbn [chead]. repeat f_equal; simpl; lia.
-  - cbn [app rewrite_go fresh_ids]. destruct (r_do r0); [|right; eapply IH; eauto].
+  - rewrite <- app_comm_cons. cbn [rewrite_go fresh_ids]. destruct (r_do r0); [|right; eapply IH; eauto].
     destruct (single_atom_premise strict (r_wild r0) (cbody (r_clause r0))); [right; eapply IH; eauto|].
     right. right. cbn [length]. rewrite Nat2Z.inj_succ.
     replace (n + Z.succ (Z.of_nat (length (fresh_ids true strict (n + 1) pre))) + 1)
@@ -404,7 +404,7 @@ Proof.
   { unfold k, rs. apply (rewrite_go_do_at strict ord pre 0 r post d Ed Es). }
   split; [exact Huniq|].
   intros f Hf.
-  apply (isolated_relation_exact R drules St0 Hn Hdr c HcR Huniq Hst); auto.
+  refine (isolated_relation_exact R drules St0 Hn Hdr c HcR Huniq Hst _ fuel Res He f Hf).
   intros q Hqin Hh. destruct (Hq q Hqin) as [Hq1 Hq2].
   unfold R in Hh. apply (Permutation_in _ (rewrite_go_heads_perm strict ord rs 0)) in Hh.
   apply in_app_iff in Hh as [Hh|Hh]; [|exact (Hq1 Hh)].
@@ -418,13 +418,6 @@ Definition ends_in_digit (p : Z) : Prop := 48 <= p mod 256 <= 57.
 
 Lemma uint_bytes_digit d : Forall is_digit (uint_bytes d).
 Proof. induction d; simpl; constructor; auto; unfold is_digit; lia. Qed.
-
-Lemma uint_bytes_nonnil_nz n : dec_bytes n <> [].
-Proof.
-  unfold dec_bytes. destruct (N.to_uint (Z.to_N n)) eqn:E; simpl; try discriminate.
-  exfalso. unfold N.to_uint in E. destruct (Z.to_N n); [discriminate|].
-  apply (DecimalPos.Unsigned.to_uint_nonnil p). exact E.
-Qed.
 
 (* two symbols extended by digit strings give the same name exactly when one symbol is the
    other followed by digits w and the digit strings differ by that prefix w *)
@@ -495,4 +488,61 @@ Proof.
   constructor; [|apply IH; auto; lia].
   intros Hin. destruct (fresh_ids_elems _ _ _ _ _ Hin) as (r0 & m & Hr0 & Hm & He).
   apply fresh_id_inj_nodigit in He; [lia| | |lia|lia]; apply Hd; simpl; auto.
+Qed.
+
+(* ---- the same with the two assumptions of the plan: generated names pairwise distinct,
+   no user predicate (head, stored fact, body atom) is an internal name *)
+Theorem rewrite_isolated_internal ord pre r post d drules St0 fuel Res :
+  let rs := pre ++ r :: post in
+  let R := plain_clauses (rewrite ord rs) in
+  let k := Z.of_nat (length (fresh_ids true true 0 pre)) + 1 in
+  let c := tmp_clause ord r k in
+  r_do r = Some d -> single_atom_premise true (r_wild r) (cbody (r_clause r)) = false ->
+  NoDup (fresh_ids true true 0 rs) ->
+  (forall r', In r' rs -> 1 <= r_head r' /\ is_internal (r_head r') = false) ->
+  (forall f, In f St0 -> is_internal (fst f) = false) ->
+  (forall q, In q (pos_preds (cbody (r_clause r))) ->
+             is_internal q = false /\ (forall r', In r' rs -> r_do r' = None -> r_head r' <> q)) ->
+  neg_ok R -> drules_ok R drules ->
+  eval_stratum fuel R drules St0 = Ok Res ->
+  In c R /\ In (do_clause ord r d k) (rewrite ord rs) /\
+  (forall c', In c' R -> apred (chead c') = fresh_id (r_head r) k -> c' = c) /\
+  (forall f, fst f = fresh_id (r_head r) k ->
+     (In f Res <-> exists t, sat (inset St0) (fun _ => St0) 0 (cbody (r_clause r)) [] t /\
+                             emit_head c t = Some f)).
+Proof.
+  intros rs R k c Ed Es Hnd Hu Hst Hq Hn Hdr He.
+  assert (H1 : forall r', In r' rs -> 1 <= r_head r') by (intros r' Hr'; apply (Hu r' Hr')).
+  assert (Hint : forall x, In x (fresh_ids true true 0 rs) -> is_internal x = true)
+    by (apply fresh_ids_internal; exact H1).
+  assert (Hr : In r rs) by (unfold rs; apply in_or_app; right; left; reflexivity).
+  apply (rewrite_isolated_names true ord pre r post d drules St0 fuel Res Ed Es Hnd); auto.
+  - intros r' Hr' _ Hin. apply Hint in Hin. destruct (Hu r' Hr') as [_ Hf]. congruence.
+  - intros f Hf Hp. apply Hst in Hf. rewrite Hp, fresh_id_internal in Hf; [discriminate|auto].
+  - intros q Hqin. destruct (Hq q Hqin) as [Hq1 Hq2]. split; [|exact Hq2].
+    intros Hin. apply Hint in Hin. congruence.
+Qed.
+
+(* ---- and with NoDup replaced by its syntactic sufficient condition *)
+Theorem rewrite_isolated_nodigit ord pre r post d drules St0 fuel Res :
+  let rs := pre ++ r :: post in
+  let R := plain_clauses (rewrite ord rs) in
+  let k := Z.of_nat (length (fresh_ids true true 0 pre)) + 1 in
+  let c := tmp_clause ord r k in
+  r_do r = Some d -> single_atom_premise true (r_wild r) (cbody (r_clause r)) = false ->
+  (forall r', In r' rs -> ~ (48 <= r_head r' mod 256 <= 57)) ->
+  (forall r', In r' rs -> 1 <= r_head r' /\ is_internal (r_head r') = false) ->
+  (forall f, In f St0 -> is_internal (fst f) = false) ->
+  (forall q, In q (pos_preds (cbody (r_clause r))) ->
+             is_internal q = false /\ (forall r', In r' rs -> r_do r' = None -> r_head r' <> q)) ->
+  neg_ok R -> drules_ok R drules ->
+  eval_stratum fuel R drules St0 = Ok Res ->
+  In c R /\ In (do_clause ord r d k) (rewrite ord rs) /\
+  (forall c', In c' R -> apred (chead c') = fresh_id (r_head r) k -> c' = c) /\
+  (forall f, fst f = fresh_id (r_head r) k ->
+     (In f Res <-> exists t, sat (inset St0) (fun _ => St0) 0 (cbody (r_clause r)) [] t /\
+                             emit_head c t = Some f)).
+Proof.
+  intros rs R k c Ed Es Hdig. apply (rewrite_isolated_internal ord pre r post d drules St0 fuel Res Ed Es).
+  apply fresh_ids_nodup; [lia|exact Hdig].
 Qed.
